@@ -143,7 +143,11 @@ func runC08(tier string, _ []string) int {
 				seen := map[string]bool{}
 				for q := 0; q < n; q++ {
 					var p data.Point
-					switch r.Intn(6) {
+					switch r.Intn(7) {
+					case 6:
+						// types that mean something to other parts of the application: to this client they are
+						// points like any other
+						p = data.Point{Type: []string{"pass", "email", "token", "authToken", "disabled", "error", "active", "trigger", "uri", "period"}[r.Intn(10)], Text: "s" + r.Ident(3), Value: float64(r.Intn(3))}
 					case 0:
 						p = data.Point{Type: "description", Text: "d" + r.Ident(4)}
 					case 1:
